@@ -34,14 +34,19 @@ ASSUMPTIONS = ["settings.STRICT is False", "Length is correct (the property's ca
 MANIFEST_ENTRY = {
     "category": "proof",
     "technique": "Coq proofs: decoder(encoder relation) = identity by induction on runs/digits/groups/rows for RunLength, "
-                 "ASCIIHex, ASCII85, PNG and TIFF predictors and for chains; LZW and Flate by correspondence; differential "
+                 "ASCIIHex, ASCII85, PNG and TIFF predictors and for chains; LZW by a dictionary-synchronisation invariant (decoder one "
+                 "entry behind) over any admissible phrase factorisation, plus an arithmetic specification of the bit reader; "
+                 "Flate by correspondence; differential "
                  "runs of every decoder model against the implementation on valid and damaged encodings",
     "text": "Theorems for ALL byte strings: RunLength (every split into literal/repeat runs, with or without EOD), ASCIIHex "
             "(any case, interleaved white space, '>' with trailing junk, odd final digit), ASCII85 (full groups, z "
             "shorthand, partial final group, white space, ~> framing), PNG predictors for every colors/columns geometry at "
             "8 bits and every per-row filter choice, TIFF predictor 2, and composition of any chain whose stages round-trip. "
-            "LZW and Flate stages and the payload delimitation are tied by differential runs only (LZW round-trip theorem "
-            "is staged, see DESIGN.md).",
+            "LZW: the codes of ANY admissible factorisation of the data into phrases (single bytes or dictionary entries, "
+            "greedy or not, incl. the not-yet-built entry) carried most-significant-bit first in the widths the decoder "
+            "expects (early change) after a clear-table code, with or without end-of-data, decode to the data; readbits is "
+            "proved to take the next w bits at every stream position. Flate stages, LZW streams with clear-table codes in "
+            "the middle, and the payload delimitation are tied by differential runs only.",
     "note": "Trusted: Coq kernel, translator (paeth, name tables), hand models tied by correspondence, harness encoders. "
             "zlib, base64.a85decode and binascii.unhexlify are modelled/oracles. Fix bcc9a95 (PNG row geometry) was needed.",
     "design_ref": "DESIGN.md section 4, C03",
